@@ -58,7 +58,11 @@ def _history(rng, n, b, S, shuffle, kind, cases, variant):
     new = {'op': 'new', 'shuffle': shuffle if cases else 0}
     new.update(b)
     sow = {'op': 'sow', 'cases': cases}
-    if not cases: sow['shuffle'] = shuffle
+    if not cases:
+        sow['shuffle'] = shuffle
+        # the constructor may carry its own setting, and the call may leave `shuffle` out or pass None
+        new['shuffle'] = rng.choice([0, 0, 11])
+        crops.vary_sow_call(rng, sow)
     else: sow['spelling'] = 'tuple'
     ids = list(S); rng.shuffle(ids)
     ops = [new, sow, {'op': 'grow', 'ids': ids, 'via': 'crop'}]
